@@ -42,7 +42,7 @@ SHUT_HOW = (socket.SHUT_RD, socket.SHUT_WR, socket.SHUT_RDWR)
 HUPMASK = select.POLLHUP | select.POLLERR | select.POLLNVAL
 
 OPS = (['addR'] * 4 + ['addW'] * 4 + ['rmR'] * 2 + ['rmW'] * 2 + ['discard'] * 2 + ['send'] * 4 + ['recv'] * 2 +
-       ['fill'] * 1 + ['shut'] * 1 + ['close'] * 3 + ['open'] * 3 + ['resume'] * 1 + ['poll'] * 8 + ['oob'] * 1)
+       ['fill'] * 1 + ['shut'] * 1 + ['close'] * 3 + ['open'] * 3 + ['resume'] * 1 + ['poll'] * 8 + ['oob'] * 1 + ['addR2'] * 1 + ['addW2'] * 1)
 
 
 class Src(BaseComponent):
@@ -69,7 +69,8 @@ class Obs(BaseComponent):
 
 
 class End:
-    __slots__ = ('sock', 'label', 'number', 'open', 'owner', 'channel', 'R', 'W', 'was_discarded', 'hung_up', 'ever_registered')
+    __slots__ = ('sock', 'label', 'number', 'open', 'owner', 'channel', 'R', 'W', 'was_discarded', 'hung_up', 'ever_registered',
+                 'alt_owner', 'alt_channel', 'chans_used', 'strict')
 
     def __init__(self, sock, label, owner, channel):
         self.sock = sock
@@ -83,6 +84,24 @@ class End:
         self.was_discarded = False     # discard() called by the harness while registered
         self.hung_up = False           # discarded by the poller itself (_disconnect)
         self.ever_registered = False
+        self.alt_owner = self.alt_channel = None    # a second component that may register the OTHER role (ops addR2/addW2)
+        self.chans_used = set()        # channels of the registrants since the descriptor was last unregistered altogether
+        self.strict = None             # (role, channel) of the most recent add, while that role stays registered
+
+    def allowed(self, name):
+        """Channels an event may be addressed to.  One registrant: its channel.  Two components holding one role each:
+        the statement owes each role to its registrant, the poller keeps ONE target per descriptor (the latest
+        registrant) - only the role registered last is held to its registrant, the other may go to either."""
+        role = {'_read': 'R', '_write': 'W'}.get(name)
+        if self.strict and role == self.strict[0]:
+            return {(self.strict[1],)}
+        return {(c,) for c in self.chans_used} or {(self.channel,)}
+
+    def note_add(self, role, channel):
+        if not self.registered:
+            self.chans_used = set()
+        self.chans_used.add(channel)
+        self.strict = (role, channel)
 
     @property
     def registered(self):
@@ -176,6 +195,17 @@ class Universe:
     def api(self, what, e):
         p = self.poller
         try:
+            alt = what.endswith('2')
+            if alt:
+                what = what[:-1]
+                if (e.R if what == 'addR' else e.W):
+                    return
+                if e.alt_owner is None:
+                    j = (CHANNELS.index(e.channel if e.channel != '*' else None) + 1) % len(CHANNELS)
+                    e.alt_owner, e.alt_channel = self.sources[j], CHANNELS[j] or '*'
+                if e.registered and e.alt_channel not in e.chans_used:
+                    self.flags.add('two-components-one-descriptor')
+            src, ch = (e.alt_owner, e.alt_channel) if alt else (e.owner, e.channel)
             if what == 'addR':
                 if e.R:
                     return
@@ -184,7 +214,8 @@ class Universe:
                     self.pending.add('re-add-after-discard')
                 if e.hung_up:
                     self.flags.add('re-add-after-poller-disconnect')
-                p.addReader(e.owner, e.sock)
+                e.note_add('R', ch)
+                p.addReader(src, e.sock)
                 e.R = True
                 e.ever_registered = True
             elif what == 'addW':
@@ -195,7 +226,8 @@ class Universe:
                     self.pending.add('re-add-after-discard')
                 if e.hung_up:
                     self.flags.add('re-add-after-poller-disconnect')
-                p.addWriter(e.owner, e.sock)
+                e.note_add('W', ch)
+                p.addWriter(src, e.sock)
                 e.W = True
                 e.ever_registered = True
             elif what == 'rmR':
@@ -204,12 +236,16 @@ class Universe:
                     self.pending.add('role-removed-other-stays')
                 p.removeReader(e.sock)
                 e.R = False
+                if e.strict and e.strict[0] == 'R':
+                    e.strict = None
             elif what == 'rmW':
                 if e.R and e.W:
                     self.flags.add('role-removed-other-stays')
                     self.pending.add('role-removed-other-stays')
                 p.removeWriter(e.sock)
                 e.W = False
+                if e.strict and e.strict[0] == 'W':
+                    e.strict = None
             elif what == 'discard':
                 if e.registered:
                     e.was_discarded = True
@@ -246,7 +282,7 @@ class Universe:
             return None
         if not e.open:
             return None
-        if op in ('addR', 'addW', 'rmR', 'rmW'):
+        if op in ('addR', 'addW', 'rmR', 'rmW', 'addR2', 'addW2'):
             self.api(op, e)
         elif op == 'send':
             try:
@@ -322,7 +358,7 @@ class Universe:
                 raise Violation('event-unknown-fd', '%s(%r) to %r names no descriptor handed to the poller' % (name, fd, chans))
             self.events += 1
             if not e.open:
-                if name == '_disconnect' and e.registered and chans == (e.channel,):
+                if name == '_disconnect' and e.registered and chans in e.allowed(name):
                     # closed without discard: one _disconnect (POLLNVAL) is by design; afterwards it is gone
                     e.R = e.W = False
                     self.flags.add('nval-disconnect')
@@ -347,8 +383,8 @@ class Universe:
             snap[e.label] = (e.R, e.W, ks[e.label], tuple(names))
             where = '%s R=%d W=%d kernel(r=%d w=%d hup=%d)' % (e.label, e.R, e.W, r, w, hup)
             for n, ch in got:
-                if ch != (e.channel,):
-                    raise Violation('wrong-channel', '%s(%s) addressed to %r, owner channel is %r' % (n, e.label, ch, e.channel))
+                if ch not in e.allowed(n):
+                    raise Violation('wrong-channel', '%s(%s) addressed to %r, registered by %r' % (n, e.label, ch, sorted(e.allowed(n))))
             if names == normal:
                 for n in names:
                     self.flags.add('seen' + n)
@@ -460,7 +496,7 @@ class C10(Prop):
             'discard, or opens a socket whose fd number belonged to an earlier registered descriptor, AND is polled '
             'afterwards; distinct = distinct spec hash')
     assumptions = (
-        'one owning source component per descriptor (BasePoller keeps one channel per descriptor)',
+        'one owning source component per descriptor, except ops addR2/addW2: a second component registers the other role; BasePoller keeps ONE target per descriptor (the latest registrant), so only the role registered last is held to its registrant\'s channel',
         'add* is never called for a role that is already registered, nor on a closed descriptor (no caller does); '
         'remove*/discard of unregistered descriptors and discard of a closed descriptor are generated',
         'Poll/EPoll may answer a hung-up descriptor that has no read event due with one _disconnect instead of _write, '
